@@ -150,6 +150,42 @@ def main(argv):
                   extra_props=["Props/C16_general.v"])
     model = Model()
 
+    def avm(teal, argv_, fields=()):
+        """Run compiled TEAL on the extracted AVM: (verdict, logs)."""
+        ctx = (S("ctx"), (S("mode"), S("app")),
+               (S("group"), ((S("fields"),) + tuple(fields), (S("arrays"), ("ApplicationArgs", argv_)))))
+        res = model.ask((S("run"), ctx, teal))
+        verdict = res[1] if res and res[0] == S("ran") else res
+        logs = [e[1] for e in res[3][1:] if e[0] == S("log")] if res and res[0] == S("ran") else None
+        return verdict, logs
+
+    def judged(verdict, logs, exp_logs):
+        """exp_logs = list of expected uint64 results (logged in order), or None = the program must fail."""
+        if exp_logs is None:
+            return verdict == S("fail")
+        return verdict == S("approve") and logs == [x.to_bytes(8, "big") for x in exp_logs]
+
+    def other_version(v, k=1):
+        return 5 + ((v - 5 + k) % 6)
+
+    def compile_twice(prog, v, descr):
+        """Compile the SAME expression object at v and then again at another version (an expression tree may be
+        compiled any number of times: two versions, approval + clear, with_sourcemap=True ...). Returns
+        [(compile_no, version, teal)]; a compilation that raises is recorded as a failing input."""
+        out = []
+        for no, vv in ((1, v), (2, other_version(v, 1 + (v % 4)))):
+            r = call_real(pt.compileTeal, prog, pt.Mode.Application, version=vv)
+            if r[0] != "ok":
+                d = dict(descr)
+                d.update({"kind": "compile-error", "version": vv, "compile_no": no, "first_version": v, "expected": "TEAL",
+                          "observed_verdict": "%s %s" % (r[1], (r[2] if len(r) > 2 else "")), "observed_logs": None})
+                sem_fail.append(d)
+                continue
+            out.append((no, vv, r[1]))
+        return out
+
+    sem_fail = []
+
     # ---------------- correspondence 1: op-list text equality, constructor acceptance ----------
     text_mismatch = []
     maxn = 9 if thorough else 7
@@ -211,11 +247,11 @@ def main(argv):
     ck.coverage["text_cases_mismatching"] = len(text_mismatch)
 
     # ---------------- correspondence 2 / oracle: real TEAL on the AVM vs big integers -----------
-    sem_fail = []
     shapes = [(a, b) for a in range(1, 7) for b in range(1, 7) if not (a == 1 and b == 1)]
     if thorough:
         shapes += [(7, 2), (2, 7), (8, 8), (1, 9), (9, 1)]
     per_shape = 60 if thorough else 14
+    recompile_runs = 10 if thorough else 3      # inputs also run on the SECOND compilation of the same object
     hist = {"ok": 0, "must_fail": 0}
     for (nn, nd) in shapes:
         vs = list(versions) if thorough else [5, 8, 10]
@@ -224,11 +260,7 @@ def main(argv):
             nums = [pt.Btoi(pt.Txn.application_args[i]) for i in range(nn)]
             dens = [pt.Btoi(pt.Txn.application_args[nn + i]) for i in range(nd)]
             prog = pt.Seq(pt.Log(pt.Itob(pt.WideRatio(nums, dens))), pt.Approve())
-            r = call_real(pt.compileTeal, prog, pt.Mode.Application, version=v)
-            if r[0] != "ok":
-                sem_fail.append({"kind": "compile-error", "version": v, "ns": [nn], "ds": [nd], "expected": "TEAL", "observed_verdict": r[1], "observed_logs": None})
-                continue
-            teal = r[1]
+            teals = compile_twice(prog, v, {"ns": [nn], "ds": [nd]})
             for k in range(per_shape):
                 style = ["boundary", "near128", "small", "random", "near128", "boundary"][k % 6]
                 ns = gen_values(ck.rng, nn, style)
@@ -238,23 +270,20 @@ def main(argv):
                 exp = oracle(ns, ds)
                 hist["ok" if exp is not None else "must_fail"] += 1
                 argv_ = [x.to_bytes(8, "big") for x in ns + ds]
-                ctx = (S("ctx"), (S("mode"), S("app")),
-                       (S("group"), ((S("fields"),), (S("arrays"), ("ApplicationArgs", argv_)))))
-                res = model.ask((S("run"), ctx, teal))
-                ck.count(("run", nn, nd, v, tuple(ns), tuple(ds)))
-                verdict = res[1] if res and res[0] == S("ran") else res
-                logs = [e[1] for e in res[3][1:] if e[0] == S("log")] if res and res[0] == S("ran") else None
-                if exp is not None:
-                    good = verdict == S("approve") and logs == [exp.to_bytes(8, "big")]
-                else:
-                    good = verdict == S("fail")
                 spec = model.ask((S("wide-spec"), ns, ds))
                 spec_v = spec[1] if spec[0] == S("some") else None
                 if spec_v != exp:
                     ck.model_problem("Coq wide_ratio_spec disagrees with the big-integer oracle on ns=%s ds=%s: %s vs %s" % (ns, ds, spec_v, exp))
-                if not good:
-                    sem_fail.append({"kind": "semantic", "version": v, "ns": ns, "ds": ds, "expected": ("fail" if exp is None else exp),
-                                     "observed_verdict": repr(verdict), "observed_logs": [l.hex() for l in logs] if logs else logs, "teal": teal})
+                verdict = None
+                for (no, vv, teal) in teals:
+                    if no == 2 and k >= recompile_runs:
+                        continue
+                    verdict, logs = avm(teal, argv_)
+                    ck.count(("run", nn, nd, vv, no, tuple(ns), tuple(ds)))
+                    if not judged(verdict, logs, None if exp is None else [exp]):
+                        sem_fail.append({"kind": "semantic", "version": vv, "compile_no": no, "first_version": v, "ns": ns, "ds": ds,
+                                         "expected": ("fail" if exp is None else exp), "observed_verdict": repr(verdict),
+                                         "observed_logs": [l.hex() for l in logs] if logs else logs, "teal": teal})
                 if len(ck.samples) < 4 and k in (0, 1):
                     ck.sample({"nums": ns, "dens": ds, "version": v, "expected": ("fail" if exp is None else exp), "verdict": repr(verdict)})
     ck.coverage["input_distribution"] = hist
@@ -286,12 +315,12 @@ def main(argv):
                 if kd in ("prod", "div", "nested") and consts[i] == 0 and ck.rng.random() < 0.8:
                     consts[i] = ck.rng.choice([1, 2, 3, 7])
                 kind_hist[kd] = kind_hist.get(kd, 0) + 1
-            r = call_real(lambda: pt.compileTeal(compound_program(pt, kinds[:nn], kinds[nn:], consts), pt.Mode.Application, version=v))
-            if r[0] != "ok":
+            rb = call_real(compound_program, pt, kinds[:nn], kinds[nn:], consts)
+            if rb[0] != "ok":
                 sem_fail.append({"kind": "compile-error", "version": v, "ns": kinds[:nn], "ds": kinds[nn:], "consts": consts,
-                                 "expected": "TEAL", "observed_verdict": r[1], "observed_logs": None})
+                                 "expected": "TEAL", "observed_verdict": rb[1], "observed_logs": None})
                 continue
-            teal = r[1]
+            teals = compile_twice(rb[1], v, {"ns": kinds[:nn], "ds": kinds[nn:], "consts": consts})
             for k in range(per_prog):
                 style = ["small", "boundary", "near128", "random", "small"][k % 5]
                 args_ = gen_values(ck.rng, nn + nd, style)
@@ -310,41 +339,94 @@ def main(argv):
                     exp = oracle(vals[:nn], vals[nn:])
                     chist["ok" if exp is not None else "must_fail"] += 1
                 argv_ = [x.to_bytes(8, "big") for x in args_]
-                ctx = (S("ctx"), (S("mode"), S("app")),
-                       (S("group"), ((S("fields"), ("Fee", fee), ("NumAppArgs", len(argv_))), (S("arrays"), ("ApplicationArgs", argv_)))))
-                res = model.ask((S("run"), ctx, teal))
-                ck.count(("run-compound", nn, nd, v, tuple(kinds), tuple(consts), tuple(args_)))
-                verdict = res[1] if res and res[0] == S("ran") else res
-                logs = [e[1] for e in res[3][1:] if e[0] == S("log")] if res and res[0] == S("ran") else None
-                if exp is not None:
-                    good = verdict == S("approve") and logs == [exp.to_bytes(8, "big")]
-                else:
-                    good = verdict == S("fail")
-                if not good:
-                    sem_fail.append({"kind": "semantic-compound", "version": v, "ns": vals[:nn], "ds": vals[nn:],
-                                     "factor_kinds": kinds, "factor_consts": consts, "app_args": args_, "fee": fee,
-                                     "expected": ("fail" if exp is None else exp), "observed_verdict": repr(verdict),
-                                     "observed_logs": [l.hex() for l in logs] if logs else logs, "teal": teal})
+                verdict = None
+                for (no, vv, teal) in teals:
+                    if no == 2 and k >= 2 and not thorough:
+                        continue
+                    verdict, logs = avm(teal, argv_, (("Fee", fee), ("NumAppArgs", len(argv_))))
+                    ck.count(("run-compound", nn, nd, vv, no, tuple(kinds), tuple(consts), tuple(args_)))
+                    if not judged(verdict, logs, None if exp is None else [exp]):
+                        sem_fail.append({"kind": "semantic-compound", "version": vv, "compile_no": no, "first_version": v,
+                                         "ns": vals[:nn], "ds": vals[nn:],
+                                         "factor_kinds": kinds, "factor_consts": consts, "app_args": args_, "fee": fee,
+                                         "expected": ("fail" if exp is None else exp), "observed_verdict": repr(verdict),
+                                         "observed_logs": [l.hex() for l in logs] if logs else logs, "teal": teal})
                 if k == 0 and si in (7, 20):
                     ck.sample({"factor_kinds": kinds, "consts": consts, "app_args": args_, "version": v,
                                "expected": ("fail" if exp is None else exp), "verdict": repr(verdict)})
     ck.coverage["compound_input_distribution"] = chist
     ck.coverage["compound_factor_kinds"] = kind_hist
 
+    # ---------------- correspondence 4: ONE WideRatio object used at two places ----------------
+    # r = WideRatio(3..5 numerators, 3..5 denominators) over application arguments; (i) as both factors of an
+    # outer ratio WideRatio([r, r], [Int 1]) = r*r; (ii) in two statements Log(Itob(r)); Log(Itob(r)).  An
+    # expression object may occur any number of times in a program: every occurrence must compute the full ratio.
+    shist = {"ok": 0, "must_fail": 0}
+    per_shared = 12 if thorough else 3
+    sshapes = [(a, b) for a in (3, 4, 5) for b in (3, 4, 5)]
+    for si, (nn, nd) in enumerate(sshapes):
+        vs = list(versions) if thorough else [5 + (si % 6), 5 + ((si + 2) % 6)]
+        for v in vs:
+            for form in ("outer", "twice"):
+                nums = [pt.Btoi(pt.Txn.application_args[i]) for i in range(nn)]
+                dens = [pt.Btoi(pt.Txn.application_args[nn + i]) for i in range(nd)]
+                rr = pt.WideRatio(nums, dens)
+                if form == "outer":
+                    prog = pt.Seq(pt.Log(pt.Itob(pt.WideRatio([rr, rr], [pt.Int(1)]))), pt.Approve())
+                else:
+                    prog = pt.Seq(pt.Log(pt.Itob(rr)), pt.Log(pt.Itob(rr)), pt.Approve())
+                teals = compile_twice(prog, v, {"ns": [nn], "ds": [nd], "shared_form": form})
+                for k in range(per_shared):
+                    style = ["small", "near128", "boundary", "small", "random", "near128"][k % 6]
+                    ns = gen_values(ck.rng, nn, style)
+                    ds = gen_values(ck.rng, nd, "small" if k % 2 == 0 else style)
+                    if k % 2 == 0:
+                        ds = [max(1, x) for x in ds]
+                    q = oracle(ns, ds)
+                    if q is None:
+                        exp_logs = None
+                    elif form == "outer":
+                        qq = oracle([q, q], [1])
+                        exp_logs = None if qq is None else [qq]
+                    else:
+                        exp_logs = [q, q]
+                    shist["ok" if exp_logs is not None else "must_fail"] += 1
+                    argv_ = [x.to_bytes(8, "big") for x in ns + ds]
+                    for (no, vv, teal) in teals:
+                        if no == 2 and k >= 2 and not thorough:
+                            continue
+                        verdict, logs = avm(teal, argv_)
+                        ck.count(("run-shared", form, nn, nd, vv, no, tuple(ns), tuple(ds)))
+                        if not judged(verdict, logs, exp_logs):
+                            sem_fail.append({"kind": "semantic", "shared_form": form, "version": vv, "compile_no": no, "first_version": v,
+                                             "ns": ns, "ds": ds, "inner_quotient": q,
+                                             "expected": ("fail" if exp_logs is None else exp_logs), "observed_verdict": repr(verdict),
+                                             "observed_logs": [l.hex() for l in logs] if logs else logs, "teal": teal})
+    ck.coverage["shared_object_input_distribution"] = shist
+
     # ---------------- verdict ----------------
-    # report at most 6 failing inputs: silently wrong numbers first (approve with a wrong log), and both
-    # families (argument factors / compound factors) represented
+    # report at most 8 failing inputs: silently wrong numbers first (approve with a wrong log), and all
+    # families (argument factors / one object at two places / compound factors) represented
     def _rank(f):
         wrong_number = f.get("observed_verdict") == repr(S("approve"))
         return (0 if wrong_number else 1)
-    plain = sorted([f for f in sem_fail if f["kind"] != "semantic-compound"], key=_rank)
+    plain = sorted([f for f in sem_fail if f["kind"] != "semantic-compound" and not f.get("shared_form")], key=_rank)
+    shared = sorted([f for f in sem_fail if f["kind"] != "semantic-compound" and f.get("shared_form")], key=_rank)
     comp = sorted([f for f in sem_fail if f["kind"] == "semantic-compound"], key=_rank)
-    for f in plain[:3] + comp[:3]:
+    for f in plain[:3] + shared[:2] + comp[:3]:
         if f["kind"] == "semantic-compound":
-            ck.violation("compiled WideRatio with factor expressions %s (constants %s) on application arguments %s (factor values %s/%s) at v%d gave %s %s, expected %s"
-                         % (f["factor_kinds"], f["factor_consts"], f["app_args"], f["ns"], f["ds"], f["version"], f["observed_verdict"], f["observed_logs"], f["expected"]), f)
+            ck.violation("compiled WideRatio with factor expressions %s (constants %s) on application arguments %s (factor values %s/%s) at v%d gave %s %s, expected %s%s"
+                         % (f["factor_kinds"], f["factor_consts"], f["app_args"], f["ns"], f["ds"], f["version"], f["observed_verdict"], f["observed_logs"], f["expected"],
+                            (" [SECOND compilation of the same expression object; first was at v%d]" % f["first_version"]) if f.get("compile_no") == 2 else ""), f)
             continue
-        ck.violation("compiled WideRatio %s/%s at v%d gave %s %s, expected %s" % (f["ns"], f["ds"], f["version"], f["observed_verdict"], f["observed_logs"], f["expected"]), f)
+        note = ""
+        if f.get("shared_form") == "outer":
+            note += " [r = that ratio used as BOTH factors of WideRatio([r, r], [1]) -- one object, two places]"
+        if f.get("shared_form") == "twice":
+            note += " [the same WideRatio object logged in two statements]"
+        if f.get("compile_no") == 2:
+            note += " [SECOND compilation of the same expression object; first was at v%d]" % f["first_version"]
+        ck.violation("compiled WideRatio %s/%s at v%d gave %s %s, expected %s%s" % (f["ns"], f["ds"], f["version"], f["observed_verdict"], f["observed_logs"], f["expected"], note), f)
     if text_mismatch and not sem_fail:
         ck.violation("correspondence broken: WideRatio op list differs from Comp/WideRatio.v (theorem C16_wide_ratio_exact_or_fails no longer transfers); AVM search over %d inputs found no wrong result" % (hist["ok"] + hist["must_fail"]),
                      {"kind": "correspondence", "broken": "text equality WideRatio.__teal__ vs wide_ratio_ops", "first": text_mismatch[0]}, no_failing_input=True)
@@ -360,7 +442,9 @@ def main(argv):
              "semantic: real compileTeal output run on the extracted AVM for shapes 1..6 x 1..6 with boundary/near-2^128/small/random uint64 factors taken from application arguments; "
              "compound: the same with factor expressions drawn from {btoi(arg), arg+c, c+arg, arg*c, arg-c, arg/c, Txn.fee, If(arg>c,arg,c), Len(arg), Int c, nested WideRatio, scratch load} "
              "(a compound factor forced into every third-or-later position), versions 5..10, each factor's value/failure computed in exact integers; "
-             "a case is distinct by (shape, version, factor kinds/constants, factor values); non-trivial = the constructor accepts the shape" % maxn,
+             "recompile: every generated program OBJECT is compiled twice (second time at another version) and both outputs are run; "
+             "shared: one WideRatio object (3..5 x 3..5 factors) used as both factors of an outer ratio and in two statements; "
+             "a case is distinct by (shape, version, compilation number, factor kinds/constants, factor values); non-trivial = the constructor accepts the shape" % maxn,
         trusted_base=[
             "AVM semantics of int/mulw/*/+/uncover/dig/cover/swap/divmodw/pop/!/assert/btoi/itob/log/txna in coq/AVM (hand-written spec)",
             "Theorem is about Comp/WideRatio.v (hand model of widemath.py), tied to the code by op-list text equality on every run",
